@@ -148,6 +148,29 @@ pub mod c02 {
         let f = Frame { parked: parked.map(|p| dup(p, &frame_guard)), registers: saved.to_vec(), register_guard: frame_guard };
         (f, vm_guard)
     }
+    // G6 controls: a parked completion copied without a guard and rethrown as it is
+    pub enum PendingCompletion { Throw(Guarded), Return(Guarded) }
+    pub enum JsError { ThrownValue { guarded: Guarded }, Other }
+    pub struct Vm { pub pending_completion: Option<PendingCompletion> }
+    pub fn duplicate(p: &PendingCompletion, keep: &super::gc::Guard<JsObject>) -> PendingCompletion {
+        let copy = |g: &Guarded| {
+            if let JsValue::Object(o) = &g.value {
+                keep.guard(o.clone());
+            }
+            Guarded { value: g.value.clone(), guard: None }
+        };
+        match p {
+            PendingCompletion::Throw(g) => PendingCompletion::Throw(copy(g)),
+            PendingCompletion::Return(g) => PendingCompletion::Return(copy(g)),
+        }
+    }
+    /// BAD: rethrows the stored completion as it is
+    pub fn finally_end(vm: &mut Vm) -> Result<(), JsError> {
+        if let Some(PendingCompletion::Throw(guarded)) = vm.pending_completion.take() {
+            return Err(JsError::ThrownValue { guarded });
+        }
+        Ok(())
+    }
     /// GOOD: the guard is kept alive alongside the value
     pub fn rooted_accumulator(interp: &mut Interp, cb: JsValue, n: u32) -> Result<Guarded, ()> {
         let mut acc = JsValue::Undefined;
@@ -715,5 +738,50 @@ pub mod c04 {
                 Statement::Other => {}
             }
         }
+    }
+}
+
+// C07 R6 controls: a slot index taken from another collection than the one that sized the slots
+pub mod c07 {
+    use std::cell::RefCell;
+    use std::rc::Rc;
+    pub struct SharedState { pub results: RefCell<Vec<u64>>, pub remaining: usize }
+    pub enum Handler { AllFulfill { state: Rc<SharedState>, index: usize }, Other }
+    /// BAD: index = position among the pending inputs
+    pub fn all_bad(inputs: &[Option<u64>]) -> Vec<Handler> {
+        let mut results: Vec<u64> = vec![0; inputs.len()];
+        let mut pending: Vec<usize> = Vec::new();
+        for (i, v) in inputs.iter().enumerate() {
+            match v {
+                Some(x) => {
+                    if let Some(slot) = results.get_mut(i) {
+                        *slot = *x;
+                    }
+                }
+                None => pending.push(i),
+            }
+        }
+        let state = Rc::new(SharedState { results: RefCell::new(results), remaining: pending.len() });
+        let mut out = Vec::new();
+        for (index, _p) in pending.iter().enumerate() {
+            out.push(Handler::AllFulfill { state: state.clone(), index });
+        }
+        out
+    }
+    /// GOOD: index = position among the inputs, carried through the vector of pending indices
+    pub fn all_good(inputs: &[Option<u64>]) -> Vec<Handler> {
+        let results: Vec<u64> = vec![0; inputs.len()];
+        let mut pending: Vec<usize> = Vec::new();
+        for (i, v) in inputs.iter().enumerate() {
+            if v.is_none() {
+                pending.push(i);
+            }
+        }
+        let state = Rc::new(SharedState { results: RefCell::new(results), remaining: pending.len() });
+        let mut out = Vec::new();
+        for &idx in &pending {
+            out.push(Handler::AllFulfill { state: state.clone(), index: idx });
+        }
+        out
     }
 }
